@@ -33,7 +33,8 @@ SHARDS = {"quick": 4, "thorough": 16}
 
 SEEDS = ["", "a", "aB", "a*", "*a", "*a*", "a?b", "a\\*b", "a\\\\*", "a\\b", "a\\", "%x%", "a%x%b%y%",
          "\\%x%", "50%", "%%", "-a", "a -b/c", "a-b", "/x -y", "*-a", "-*", "é–", "-é", "_-a", "10.0.0.0/8",
-         "::1/128", "10.0.0.1/8", "a.*", "^a$", "(", "a|b", ".*a.*", "field name", "a%x", "%x%*%y%",
+         "::1/128", "10.0.0.1/8", "FE80::/10", "fe80:0000:0000::/64", "2001:DB8:0:0::/32", "0:0:0:0:0:0:0:1/128", "::ffff:10.0.0.0/104",
+         "10.0.0.0/255.0.0.0", "192.168.1.0/24", "10.0.0.0", "fe80::%eth0/64", "a.*", "^a$", "(", "a|b", ".*a.*", "field name", "a%x", "%x%*%y%",
          0, 5, -1, 1.5, 2.0, True, False, None, ["a", "b*"], [1, 2], ["a", 1, None], [], ["-a", "/b"],
          ["%x%", "c"],
          "(?i)foo", "(?s)a.b", "a(?i)b", "foo\\$", "a\\.*", "a\\\\$", "a\\\\.*", "\\^a",
